@@ -46,6 +46,11 @@ VIOLATIONS = [
     ("fragments_module_named_client", {"fragments_module_name": "client"}, "ParsingError"),
     ("operation_named_exceptions", "QUERIES:query exceptions { user(id: \"1\") { id } }", "ParsingError"),
     ("operation_named_async_base_client", "QUERIES:query asyncBaseClient { user(id: \"1\") { id } }", "ParsingError"),
+    # directory sources: every FILE must be valid GraphQL on its own (two halves that only parse when glued together are two invalid files)
+    ("queries_dir_files_invalid_alone", ("QTREE", [("a.graphql", "query GetA { users { id }"), ("b.graphql", "} query GetB { users { id } }")]), "InvalidGraphqlSyntax"),
+    ("schema_dir_files_invalid_alone", ("STREE", [("a.graphql", "type Query { users: [User!]! user(id: ID!): User"), ("b.graphql", "} type User { id: ID! name: String }")]), "InvalidGraphqlSyntax"),
+    # custom operations copy base_operation.py into the package: an operation module of that name collides
+    ("operation_named_base_operation_custom_ops", ("QCFG", "query BaseOperation { users { id } }", {"enable_custom_operations": True}), "ParsingError"),
 ]
 
 INVALID_OPS = [
@@ -117,6 +122,13 @@ def run_violation(spec, pre: int, strategy="client"):
         job["schema"] = change[7:]
     elif isinstance(change, str) and change.startswith("QUERIES:"):
         job["queries"] = change[8:]
+    elif isinstance(change, tuple) and change[0] == "QTREE":
+        job["queries"] = [tuple(x) for x in change[1]]
+    elif isinstance(change, tuple) and change[0] == "STREE":
+        job["schema"] = [tuple(x) for x in change[1]]
+    elif isinstance(change, tuple) and change[0] == "QCFG":
+        job["queries"] = change[1]
+        job["config"].update(change[2])
     if pre == 1:
         job["preexisting"] = {}
         job["pre_empty_dir"] = True
